@@ -20,8 +20,21 @@ import (
 // ---------- C10: idempotent and layout-canonical ----------
 
 type c10Case struct {
-	Text     string `json:"text"`
-	Relayout string `json:"relayout"`
+	Text     string   `json:"text"`
+	Relayout string   `json:"relayout"`
+	Sites    []string `json:"sites,omitempty"` // grammatical position class of each comment, in order
+}
+
+// commentScope qualifies comment-related classes: failures caused by comments at positions an
+// open finding lists are a different root cause from failures at positions that work today.
+func commentScope(k c10Case) string {
+	avoid := pbt.AvoidTags("C10")
+	for _, s := range k.Sites {
+		if avoid["comment:"+s] {
+			return s
+		}
+	}
+	return "supported-positions"
 }
 
 func evalC10(k c10Case) []pbt.Violation {
@@ -41,7 +54,7 @@ func evalC10(k c10Case) []pbt.Violation {
 	case err2 != nil:
 		vs = append(vs, pbt.Violation{Signature: "format-output-unparsable", Detail: "format(x) does not parse: " + clip(err2.Error(), 200)})
 	case f2 != f1:
-		vs = append(vs, pbt.Violation{Signature: "not-idempotent:" + diffClass(f1, f2), Detail: "format(format(x)) != format(x): " + firstLineDiff(f1, f2)})
+		vs = append(vs, pbt.Violation{Signature: "not-idempotent:" + scoped(diffClass(f1, f2), k), Detail: "format(format(x)) != format(x): " + firstLineDiff(f1, f2)})
 	}
 	if k.Relayout != "" {
 		g1, gerr, gp, _ := inproc.Format(k.Relayout)
@@ -50,10 +63,17 @@ func evalC10(k c10Case) []pbt.Violation {
 		case gerr != nil:
 			vs = append(vs, pbt.Violation{Signature: "format-rejects-valid", Detail: "formatter rejects the re-layout: " + clip(gerr.Error(), 200)})
 		case g1 != f1:
-			vs = append(vs, pbt.Violation{Signature: "layout-dependent:" + diffClass(f1, g1), Detail: "format(relayout(x)) != format(x): " + firstLineDiff(f1, g1)})
+			vs = append(vs, pbt.Violation{Signature: "layout-dependent:" + scoped(diffClass(f1, g1), k), Detail: "format(relayout(x)) != format(x): " + firstLineDiff(f1, g1)})
 		}
 	}
 	return vs
+}
+
+func scoped(cls string, k c10Case) string {
+	if strings.HasPrefix(cls, "comment-") {
+		return cls + ":" + commentScope(k)
+	}
+	return cls
 }
 
 // diffClass gives a coarse root-cause class for two formatter outputs that should be equal.
@@ -146,7 +166,7 @@ func TestC10(t *testing.T) {
 		tc := genText(rt, c, mode, rapid.Bool().Draw(rt, "wild"), avoid)
 		// the re-layout keeps tokens and comment attachment and redraws every gap
 		relay, _ := dsl.Layout(tc.Toks, dsl.RandLayout{T: rt, Label: "relay", Wild: true})
-		k := c10Case{Text: tc.Text, Relayout: relay}
+		k := c10Case{Text: tc.Text, Relayout: relay, Sites: tc.Sites}
 		c.Eval()
 		c.Class("origin:" + tc.Origin)
 		nontrivial := tc.NComments > 0 || hasLongList(tc.Toks) || nestedInline(tc.Toks)
